@@ -37,7 +37,10 @@ static inline unsigned long long verif_draw(unsigned long long lo, unsigned long
 #define OUT(x) ((void)0)
 #define COVER(c, msg) __CPROVER_cover(c)
 void F_verif_cap_exceeded(void) { __CPROVER_assert(0, "BOUND: model container capacity exceeded"); __CPROVER_assume(0); }
-#define VERIF_MAIN int main(void)
+void rt_global_ctors(void);
+int verif_body(void);
+int main(void) { rt_global_ctors(); return verif_body(); }
+#define VERIF_MAIN int verif_body(void)
 #ifdef WITNESS
 #define VERIF_END do { __CPROVER_assert(0, "WITNESS: end of harness reachable"); return 0; } while (0)
 #else
